@@ -17,7 +17,7 @@ From Coq Require Import List QArith Reals Qreals Lra Arith Bool String Lia.
 From PV Require Import Base.IPS Model.Dict Model.Terms Model.Method Model.MethodDump Model.ClassGen
   Spec.Sem Spec.World Spec.Classes Proofs.DictLemmas Proofs.SemLemmas Proofs.MethodLemmas Proofs.C04Lemmas
   Proofs.C03Core Proofs.C03Assembly Proofs.C09Compose Proofs.C09ComposeAll Proofs.C09Prox.
-From PV Require Spec.StepsSpec Proofs.C08Real.
+From PV Require Spec.StepsSpec Proofs.C08Lemmas Proofs.C08Records Proofs.C08Real.
 From PV Require Import Gen.Classes.
 Import ListNotations.
 Local Open Scope R_scope.
@@ -41,11 +41,26 @@ Section Steps.
 
   (** the world W with these operations (oracles, genuineness, stationary points, proximal operators, linear
       minimisation oracles, inexact oracles, line searches: unchanged) *)
-  Definition with_steps es (Hes : epssub_ok es) hm mir (Hm : mirror_ok hm mir) hb bp (Hb : bprox_ok hb bp) : @world E :=
+  Definition iprox_ok (ip : nat -> ipopt -> R -> E -> ((E * E * R) * (E * E * R)) * R) : Prop :=
+    forall f opt gamma x0, 0 < gamma ->
+      let r := ip f opt gamma x0 in
+      let w := fst (fst (fst (fst r))) in let v := snd (fst (fst (fst r))) in let fw := snd (fst (fst r)) in
+      let x := fst (fst (snd (fst r))) in let gx := snd (fst (snd (fst r))) in let fx := snd (snd (fst r)) in
+      Gen W f (x, gx, fx) /\
+      match opt with
+      | PDgapI => Gen W f (w, v, fw) /\
+                  nrm2 (vadd (vsub x x0) (vscal gamma v)) / 2 + gamma * (fx - fw - inner v (vsub x w)) <= snd r
+      | PDgapII => nrm2 (vadd (vsub x x0) (vscal gamma gx)) / 2 <= snd r
+      | PDgapIII => Gen W f (w, vscal (1 / gamma) (vsub x0 x), fw) /\
+                    gamma * (fx - fw - inner (vscal (1 / gamma) (vsub x0 x)) (vsub x w)) <= snd r
+      end.
+
+  Definition with_steps es (Hes : epssub_ok es) hm mir (Hm : mirror_ok hm mir) hb bp (Hb : bprox_ok hb bp)
+      ip (Hip : iprox_ok ip) : @world E :=
     mkW (orc W) (Gen W) (stat W) (orc_genuine W) (stat_genuine W) (Gen_veq W) (Gen_xveq W)
         (has_prox W) (prox W) (proxval W) (prox_genuine W) (has_lmo W) (lmo W) (lmo_genuine W)
         (inexact W) (inexact_bound W) (has_ls W) (linesearch W) (ls_orth W)
-        es Hes hm mir Hm hb bp Hb.
+        es Hes hm mir Hm hb bp Hb ip Hip.
 
   (** the operations of W itself meet the specifications (they are record fields of W) *)
   Lemma world_epssub_ok : epssub_ok (epssub W).
@@ -54,6 +69,8 @@ Section Steps.
   Proof. intros h s. exact (mirror_genuine W h s). Qed.
   Lemma world_bprox_ok : bprox_ok (has_bprox W) (bprox W).
   Proof. intros h f gamma s0. exact (bprox_genuine W h f gamma s0). Qed.
+  Lemma world_iprox_ok : iprox_ok (iprox W).
+  Proof. intros f opt gamma x0. exact (iprox_spec W f opt gamma x0). Qed.
 
   (** ** composition with C03 for ANY world: a function index whose genuine samples are those of a real convex
       function / a real mu-strongly convex L-smooth function *)
@@ -98,6 +115,32 @@ Section Steps.
     pose proof (HG _ (orc_genuine W f x0)) as [_ Hf0].
     apply (C08Real.eps_subgrad_from_record F _ x0 (fst (snd (epssub W f x0)))); [exact Hd|exact Hsub|].
     rewrite <- Hfy, <- Hf0. exact Hc.
+  Qed.
+
+  (** ** inexact_proximal_step: the criterion the world's approximate proximal operator is specified to meet is the
+      primal-dual gap of the proximal problem of Spec/StepsSpec.v ([pd_gap], as in the step's docstring) with the dual
+      point of the option: (v, w, fw) for 'PD_gapI', (gx, x, fx) for 'PD_gapII', ((x0 - x) / gamma, w, fw) for
+      'PD_gapIII' (C08's identity pd_gap_identity) *)
+  Theorem iprox_spec_is_pd_gap (f : nat) (opt : ipopt) (gamma : R) (x0 : E) :
+    0 < gamma ->
+    let r := iprox W f opt gamma x0 in
+    let w := fst (fst (fst (fst r))) in let v := snd (fst (fst (fst r))) in let fw := snd (fst (fst r)) in
+    let x := fst (fst (snd (fst r))) in let gx := snd (fst (snd (fst r))) in let fx := snd (snd (fst r)) in
+    match opt with
+    | PDgapI => StepsSpec.pd_gap gamma x0 x fx v w fw
+    | PDgapII => StepsSpec.pd_gap gamma x0 x fx gx x fx
+    | PDgapIII => StepsSpec.pd_gap gamma x0 x fx (vscal (1 / gamma) (vsub x0 x)) w fw
+    end <= snd r.
+  Proof.
+    intros Hg. pose proof (iprox_spec W f opt gamma x0 Hg) as Hsp. cbn zeta in *.
+    destruct opt; rewrite C08Records.pd_gap_identity; destruct Hsp as [_ Hsp].
+    - destruct Hsp as [_ Hc]. lra.
+    - rewrite inner_sub_r. lra.
+    - destruct Hsp as [_ Hc].
+      set (x := fst (fst (snd (fst (iprox W f PDgapIII gamma x0))))) in *.
+      assert (Hz : nrm2 (vadd (vsub x x0) (vscal gamma (vscal (1 / gamma) (vsub x0 x)))) = 0).
+      { C08Lemmas.bilin. C08Lemmas.orient [x0; x]. field. lra. }
+      rewrite Hz. lra.
   Qed.
 End Steps.
 
@@ -168,7 +211,44 @@ Theorem breg_dual_meaning {E : ips} (rho : nat -> E) (sx0 g : pdict) gamma :
   veq (evalP rho (breg_dual sx0 g gamma)) (vsub (evalP rho sx0) (vscal (Q2R gamma) (evalP rho g))).
 Proof. exact (breg_dual_value rho sx0 g gamma). Qed.
 
-(** what the three steps record, for every state: counters, samples, constraints *)
+Theorem iprox_constraint_meaning {E : ips} opt (rho : nat -> E) (phi : nat -> R) n e (x0 : pdict) gamma :
+  NoDupKeys nat x0 -> 0 < Q2R gamma ->
+  (holds rho phi (ip_cons opt n e x0 gamma) <-> ip_meaning opt rho phi n e x0 gamma).
+Proof. exact (ip_cons_holds opt rho phi n e x0 gamma). Qed.
+
+Theorem iprox_constraint_meaning_cases {E : ips} opt (rho : nat -> E) (phi : nat -> R) n e (x0 : pdict) gamma :
+  NoDupKeys nat x0 -> 0 < Q2R gamma ->
+  (holds rho phi (ip_cons opt n e x0 gamma) <->
+   match opt with
+   | PDgapI =>
+       nrm2 (vadd (vsub (rho (S (S n))) (evalP rho x0)) (vscal (Q2R gamma) (rho n))) / 2
+       + Q2R gamma * (phi (S e) - phi e - inner (rho n) (vsub (rho (S (S n))) (rho (S n)))) <= phi (S (S e))
+   | PDgapII => nrm2 (rho n) / 2 <= phi (S e)
+   | PDgapIII =>
+       Q2R gamma * (phi (S e) - phi e
+                    - inner (vscal (1 / Q2R gamma) (vsub (evalP rho x0) (rho n))) (vsub (rho n) (rho (S (S n)))))
+       <= phi (S (S e))
+   end).
+Proof. destruct opt; exact (ip_cons_holds _ rho phi n e x0 gamma). Qed.
+
+(** what the steps record, for every state: counters, samples, constraints *)
+Theorem inexact_prox_records (s : mstate) f x0 gamma :
+  mstep s (MInexactProx f x0 gamma PDgapI) =
+    mkM (4 + m_np s) (3 + m_ne s)
+        (m_samples s ++ [(f, ([(S (m_np s), 1%Q)], [(m_np s, 1%Q)], [(KF (m_ne s), 1%Q)]));
+                         (f, ([(S (S (m_np s)), 1%Q)], [(S (S (S (m_np s))), 1%Q)], [(KF (S (m_ne s)), 1%Q)]))])
+        (m_cons s ++ [(f, ip_cons PDgapI (m_np s) (m_ne s) x0 gamma)]) /\
+  mstep s (MInexactProx f x0 gamma PDgapII) =
+    mkM (2 + m_np s) (2 + m_ne s)
+        (m_samples s ++ [(f, (ip2_point (m_np s) x0 gamma, [(S (m_np s), 1%Q)], [(KF (m_ne s), 1%Q)]))])
+        (m_cons s ++ [(f, ip_cons PDgapII (m_np s) (m_ne s) x0 gamma)]) /\
+  mstep s (MInexactProx f x0 gamma PDgapIII) =
+    mkM (3 + m_np s) (3 + m_ne s)
+        (m_samples s ++ [(f, ([(m_np s, 1%Q)], [(S (m_np s), 1%Q)], [(KF (S (m_ne s)), 1%Q)]));
+                         (f, ([(S (S (m_np s)), 1%Q)], ip3_grad (m_np s) x0 gamma, [(KF (m_ne s), 1%Q)]))])
+        (m_cons s ++ [(f, ip_cons PDgapIII (m_np s) (m_ne s) x0 gamma)]).
+Proof. repeat split. Qed.
+
 Theorem new_steps_record (s : mstate) :
   (forall f p, mstep s (MEpsSub f p) =
      mkM (3 + m_np s) (3 + m_ne s)
@@ -213,8 +293,20 @@ Proof.
   field. lra.
 Qed.
 
+(** approximate proximal operator: the exact one, x = x0 / (1 + 2 gamma), with v = gx = 2 x, w = x and accuracy 0 *)
+Definition sq_ip : nat -> ipopt -> R -> R1 -> ((R1 * R1 * R) * (R1 * R1 * R)) * R :=
+  fun _ _ gamma (x0 : R) => let x := x0 / (1 + 2 * gamma) in (((x, 2 * x, x * x), (x, 2 * x, x * x)), 0).
+Lemma sq_ip_ok : iprox_ok sq_world sq_ip.
+Proof.
+  intros f opt gamma x0 Hg. change R in x0. cbn zeta. cbn [sq_ip fst snd].
+  split; [apply sq_genuine; reflexivity|]. destruct opt.
+  - split; [apply sq_genuine; reflexivity|]. apply Req_le. unfold nrm2, vadd, vsub, vneg. cbn. field. lra.
+  - apply Req_le. unfold nrm2, vadd, vsub, vneg. cbn. field. lra.
+  - split; [apply sq_genuine; [|reflexivity]|apply Req_le]; unfold nrm2, vadd, vsub, vneg; cbn; field; lra.
+Qed.
+
 Definition sq_steps_world : @world R1 :=
-  with_steps sq_world sq_es sq_es_ok (fun _ => true) sq_mir sq_mir_ok (fun _ _ => true) sq_bp sq_bp_ok.
+  with_steps sq_world sq_es sq_es_ok (fun _ => true) sq_mir sq_mir_ok (fun _ _ => true) sq_bp sq_bp_ok sq_ip sq_ip_ok.
 
 (** x0 = Point(); s0 = Point(); epsilon_subgradient_step(x0, f, gamma);                    leaves 2, 3, 4
     x1, s1, h1 = bregman_gradient_step(g0, s0, f, 1/2)  (g0 = leaf 2, the eps-subgradient);   leaf 5
@@ -252,5 +344,37 @@ Proof.
     apply (world_constraints_hold sq_steps_world steps_program vs 0%nat); [exact Hwf|exact Hpx|left; reflexivity].
   - split; [vm_compute; reflexivity|].
     apply (run_satisfies_convex_any sq_steps_world sq_F 0 steps_program vs); [|exact Hwf|exact Hnd|exact Hpx].
+    intros t Ht. exact Ht.
+Qed.
+
+(** x0 = Point(); inexact_proximal_step(x0, f, 1/2, 'PD_gapI'); inexact_proximal_step(x0, f, 1, 'PD_gapII');
+    inexact_proximal_step(x0, f, 2, 'PD_gapIII') *)
+Definition inexact_prox_program : list mop :=
+  [MFresh; MInexactProx 0 [(0%nat, 1%Q)] (1 # 2)%Q PDgapI; MInexactProx 0 [(0%nat, 1%Q)] 1%Q PDgapII;
+   MInexactProx 0 [(0%nat, 1%Q)] 2%Q PDgapIII].
+
+Example inexact_prox_example (vs : (nat -> R1) * (nat -> R)) :
+  mwf inexact_prox_program minit = true /\ steps_ok sq_steps_world inexact_prox_program = true /\
+  Forall op_nodup inexact_prox_program /\ forallb linopt_dir_nonzero inexact_prox_program = true /\
+  m_np (mrun inexact_prox_program minit) = 10%nat /\ m_ne (mrun inexact_prox_program minit) = 8%nat /\
+  List.length (m_samples (mrun inexact_prox_program minit)) = 5%nat /\
+  List.length (m_cons (mrun inexact_prox_program minit)) = 3%nat /\
+  (* the approximate proximal point of the first step (leaf 3) and its accuracy (value leaf 2) *)
+  fst (wrun sq_steps_world inexact_prox_program minit vs) 3%nat = (Q2R 1 * fst vs 0%nat + 0) / (1 + 2 * Q2R (1 # 2)) /\
+  snd (wrun sq_steps_world inexact_prox_program minit vs) 2%nat = 0 /\
+  (forall f c, In (f, c) (m_cons (mrun inexact_prox_program minit)) ->
+     holds (fst (wrun sq_steps_world inexact_prox_program minit vs)) (snd (wrun sq_steps_world inexact_prox_program minit vs)) c) /\
+  all_satisfied (fst (wrun sq_steps_world inexact_prox_program minit vs)) (snd (wrun sq_steps_world inexact_prox_program minit vs))
+    (run_plan plan_ConvexFunction (fstate_of (fun _ => 0%Q) (mrun inexact_prox_program minit) 0)).
+Proof.
+  assert (Hwf : mwf inexact_prox_program minit = true) by (vm_compute; reflexivity).
+  assert (Hpx : steps_ok sq_steps_world inexact_prox_program = true) by reflexivity.
+  assert (Hnd : Forall op_nodup inexact_prox_program).
+  { repeat constructor; cbn; try tauto; intros [H|[]]; discriminate. }
+  split; [exact Hwf|]. split; [exact Hpx|]. split; [exact Hnd|]. split; [vm_compute; reflexivity|].
+  split; [vm_compute; reflexivity|]. split; [vm_compute; reflexivity|]. split; [vm_compute; reflexivity|].
+  split; [vm_compute; reflexivity|]. split; [reflexivity|]. split; [reflexivity|]. split.
+  - intros f c Hin. exact (world_constraints_hold sq_steps_world inexact_prox_program vs f c Hwf Hpx Hin).
+  - apply (run_satisfies_convex_any sq_steps_world sq_F 0 inexact_prox_program vs); [|exact Hwf|exact Hnd|exact Hpx].
     intros t Ht. exact Ht.
 Qed.
